@@ -62,11 +62,13 @@ def variants(sc, rng, limit):
     vs = []
     simple_states = all(not st["enter"] and not st["exit"] for st in sc["states"]) and not sc.get("values")
     sstyles = ["attr", "dict"] + (["enum"] if simple_states else [])
-    combos = list(itertools.product(["str", "list", "obj", "assign", "event_ctor"],
+    combos = list(itertools.product(["str", "list", "obj", "assign", "event_ctor", "mixed", "mixed"],
                                     ["to", "from", "multi", "multi_from"], [False, True], sstyles, [False, True]))
     rng.shuffle(combos)
     for ev, ts, itself, ss, inh in combos[:limit]:
         v = dict(sc, evstyle=ev, tstyle=ts, itself=itself, sstyle=ss, inherit=inh)
+        if ev == "mixed":      # some transitions name their event with event=, others by class attribute
+            v["mixed"] = [1 if (len(t["ev"]) == 1 and rng.random() < 0.5) else 0 for t in sc["trans"]]
         if ev == "obj" and any(len(t["ev"]) > 1 for t in sc["trans"]):
             continue       # placeholder events reorder multi-event lists (event order is not compared, but
                            # allowed_events order is an observation): keep this style to single-event machines
@@ -77,33 +79,31 @@ def variants(sc, rng, limit):
 
 
 def add_any(sc, rng):
-    """one transition from every non-final state to X under a fresh event, last in every state's list"""
+    """one transition from every non-final state to X under a fresh event, last in every state's list;
+    its guards (cond and unless), validators and actions are those of an existing transition"""
     x = rng.randrange(sc["n"])
     e = sc["ne"]
     sc["ne"] += 1
     kw = {"int": False, "val": [], "cond": [], "before": [], "on": [], "after": []}
+    donors = [t for t in sc["trans"] if not t["int"]]
+    if donors and rng.random() < 0.7:
+        d = rng.choice(donors)
+        kw = {"int": False, "val": list(d["val"]), "cond": [[nm, (not b) if rng.random() < 0.5 else b] for nm, b in d["cond"]],
+              "before": list(d["before"]), "on": list(d["on"]), "after": list(d["after"])}
     sc["any"] = {"tgt": x, "ev": e}
     for s in range(sc["n"]):
         if s not in sc["finals"]:
-            sc["trans"].append(dict(kw, s=s, t=x, ev=[e]))
+            sc["trans"].append(dict(copy.deepcopy(kw), s=s, t=x, ev=[e]))
     return sc
 
 
 def render_any(sc):
-    """the same machine with the last group of transitions written as X.from_.any()"""
-    a = sc["any"]
+    """the same machine with the last group of transitions written as X.from_.any(...)"""
     n_any = sum(1 for s in range(sc["n"]) if s not in sc["finals"])
     v = copy.deepcopy(sc)
     v["trans"] = sc["trans"][:-n_any]
-    src = eng.render_source(v)
-    line = f"    {eng.evname(a['ev'])} = s{a['tgt']}.from_.any()"
-    marker = "\n    def " if "\n    def " in src.split("class Mdl")[0] else None
-    head, tail = src.split("\nclass Mdl:", 1)
-    lines = head.split("\n")
-    # insert after the last transition / event line of class M (before its methods)
-    idx = max(i for i, ln in enumerate(lines) if ln.startswith("    s") or ln.startswith("    tr") or " = " in ln and not ln.strip().startswith("def"))
-    lines.insert(idx + 1, line)
-    return "\n".join(lines) + "\nclass Mdl:" + tail
+    v["any_render"] = copy.deepcopy(sc["trans"][-1])
+    return eng.render_source(v)
 
 
 def run_source(sc, src):
@@ -189,7 +189,7 @@ def generate(rng, tier):
             t["ev"] = sorted(t["ev"])
         if rng.random() < 0.4:
             add_any(sc, rng)
-        sc["variants"] = [{k: v[k] for k in ("evstyle", "tstyle", "itself", "sstyle", "inherit")}
+        sc["variants"] = [{k: v[k] for k in ("evstyle", "tstyle", "itself", "sstyle", "inherit", "mixed") if k in v}
                           for v in variants(sc, rng, 10 if tier == "quick" else 24)]
         scs.append(sc)
     return scs, [("abstract machines, each rendered as baseline (event=\"a b\", a.to(b), State attributes) and in up to "
